@@ -194,3 +194,13 @@ func PoolChurn(maxClass int) {
 		}
 	}
 }
+
+// Virtual maps n bytes of untouched anonymous zero pages (address space, not memory) and returns
+// them with the function that unmaps them.
+func Virtual(n int) ([]byte, func()) {
+	mem, err := syscall.Mmap(-1, 0, n, syscall.PROT_READ|syscall.PROT_WRITE, syscall.MAP_ANON|syscall.MAP_PRIVATE|syscall.MAP_NORESERVE)
+	if err != nil {
+		panic(fmt.Sprintf("san.Virtual(%d): %v", n, err))
+	}
+	return mem, func() { _ = syscall.Munmap(mem) }
+}
